@@ -60,12 +60,13 @@ def rule_scalar_table(ck):
             enc = encs[0]
             if size_vals:
                 ok = ok and all(SIZES[T] == sv for sv in size_vals)
-            fixed = {"address": 8, "signed_char": 1, "unsigned_char": 1, "boolean": 1, "UTF": 4}
+            fixed = {"address": 8, "signed_char": 1, "unsigned_char": 1, "boolean": 1, "UTF": 4, "ASCII": 1}
             if not size_vals and enc in fixed:
                 ok = ok and SIZES[T] == fixed[enc]
             kind_ok = {
                 "address": T == "usize", "signed": T.startswith("i"), "signed_char": T == "i8", "unsigned": T.startswith("u") and T != "usize" or T == "usize",
-                "unsigned_char": T == "u8", "float": T.startswith("f"), "boolean": T == "bool", "UTF": T == "char", "ASCII": T in ("char", "u8"),
+                # bool / char have invalid bit patterns: they are decoded from an integer of the same size
+                "unsigned_char": T == "u8", "float": T.startswith("f"), "boolean": T == "u8", "UTF": T == "u32", "ASCII": T == "u8",
             }.get(enc, False)
             ok = ok and kind_ok
         ck.ob("table.scalar_decode", f"arm:{key}", ok, d, g.loc(c.bb), what=f"scalar with {d}: size or kind mismatch")
